@@ -44,7 +44,31 @@ pub struct RunCfg {
 
 impl RunCfg {
     pub fn cases(&self, quick: u64, thorough: u64) -> u64 {
-        ((self.tier.pick(quick, thorough) as f64) * self.scale).max(1.0) as u64
+        // the quick tier is fixed work, sized per property so that it takes roughly 15-40 s on 16 cores
+        let quick_factor = match (self.tier, self.prop.as_str()) {
+            (Tier::Thorough, _) => 1.0,
+            (_, "C01") => 4.0,
+            (_, "C02") => 8.0,
+            (_, "C03") => 10.0,
+            (_, "C04") => 6.0,
+            (_, "C05") => 5.0,
+            (_, "C06") => 3.0,
+            (_, "C07") => 2.0,
+            (_, "C08") => 5.0,
+            (_, "C09") => 3.0,
+            (_, "C10") => 4.0,
+            (_, "C11") => 15.0,
+            (_, "C12") => 10.0,
+            (_, "C13") => 15.0,
+            (_, "C14") => 12.0,
+            (_, "C15") => 10.0,
+            (_, "C16") => 3.0,
+            (_, "C17") => 5.0,
+            (_, "C18") => 0.6,
+            (_, "C20") => 8.0,
+            _ => 1.0,
+        };
+        ((self.tier.pick(quick, thorough) as f64) * quick_factor * self.scale).max(1.0) as u64
     }
 }
 
